@@ -20,6 +20,7 @@ def run(chk, tier):
         r = rint.RInt(chk, lib.facts, lib.label, ("S1", "S2", "S3"))
         r.run(lambda f: is_lib_or_gen(f, root) and f.get("cls_tpl") == "sbepp::detail::dynamic_array_ref")
     spec_array.check_value_aliasing(chk, lib_for("vdims", "c++17"))
+    spec_array.check_overlapping_copies(chk, lib_for("vdims", "c++17"))
     # iterator-pair overloads are documented for input iterators: a single-pass range is traversed once
     import singlepass
     singlepass.check(chk, lib_for("vdims", "c++17"))
